@@ -23,7 +23,7 @@ def describe(tier):
                 % DEPTH[tier],
         'bounds': 'alphabet 5, BFS to fixpoint (cap %d states), all 5^k sequences k<=%d' % (STATE_CAP, DEPTH[tier]),
         'assumptions': ['hidden state can only live in the EDB object, the token objects or the scheme/config object (canon covers these three)'],
-        'must_be_nonzero': ['bfs-fixpoint', 'sequences', 'inputs-checked', 'inputs-checked-bytearray-ids', 'default-config-checked', 'second-index'],
+        'must_be_nonzero': ['bfs-fixpoint', 'sequences', 'inputs-checked', 'inputs-checked-bytearray-ids', 'default-config-checked', 'config-variants-checked', 'second-index'],
     }
 
 
@@ -295,6 +295,26 @@ def run_defaults(r, seed):
             r['transitions'] += 5
         except Exception as e:
             r.count('default-config-not-usable-as-is:' + name)
+        # unusual but accepted configuration dictionaries: without the (never read) "scheme" entry; with an extra unknown entry;
+        # the caller's dictionary is only read - same keys, same order, same values afterwards
+        for vname, mk in (('no-scheme-key', lambda c: {k: v for k, v in c.items() if k != 'scheme'}), ('extra-key', lambda c: dict(c, zz_comment='kept by the caller')),
+                          ('reordered', lambda c: dict(reversed(list(c.items()))))):
+            cfgv = mk(sse.finalize_cfg(name, sse.base_cfg(name), {b'w': [b'x']}))
+            snap = copy.deepcopy(cfgv)
+            r['evaluations'] += 1
+            try:
+                sch = L.SSEScheme(cfgv)
+                k_ = sch.KeyGen()
+                ids_ = cfgv.get('param_identifier_size', 8)
+                dbv = domains.make_db([2, 1], ids_, 6, g)
+                ev = sch.EDBSetup(k_, dbv)
+                for w in dbv:
+                    sch.Search(ev, sch.TokenGen(k_, w))
+                r.count('config-variants-checked')
+            except Exception:
+                r.count('config-variant-refused:' + vname)
+            if cfgv != snap or list(cfgv) != list(snap):
+                r.v(PROPERTY, name, 'input-mutated', 'config-dict/' + vname, dict(case, variant=vname), snap, cfgv)
         r.count('default-config-checked')
         if cfgmod.DEFAULT_CONFIG != before or L.SSEConfig.get_default_config() != before_cls:
             r.v(PROPERTY, name, 'input-mutated', 'DEFAULT_CONFIG', case, before, cfgmod.DEFAULT_CONFIG)
